@@ -1127,6 +1127,34 @@ func (x *Exec) checkFrame(fr *Frame, st *State) {
 	}
 }
 
+// checkPreserves: a `modifies *` function with `preserves T…` leaves every field of every T object that existed at
+// entry as it was (objects allocated by the function itself may be written freely).
+func (x *Exec) checkPreserves(fr *Frame, st *State) {
+	tt := x.tt
+	con := fr.con
+	keep := preservesKeep(con)
+	for _, name := range x.allHeapNames(st) {
+		if !keep(name) {
+			continue
+		}
+		cur, ok := st.heaps[name]
+		if !ok {
+			continue
+		}
+		srt := x.heapSorts[name]
+		old := tt.Sym(name+"@0", srt)
+		if cur == old {
+			continue
+		}
+		if is, _ := splitArraySort(srt); is != "Int" {
+			continue
+		}
+		p := tt.Bound("p", "Int")
+		g := tt.Forall([]*Term{p}, tt.Or(tt.Ge(tt.UF("birth$", "Int", p), fr.entry.clk), tt.Eq(tt.Select(cur, p), tt.Select(old, p))))
+		x.oblige(fr, st, "preserves", name, con.frameTags(), g, "fields of objects of a preserved type that existed at entry are unchanged: "+name)
+	}
+}
+
 func (c *Contract) frameTags() []string {
 	var out []string
 	seen := map[string]bool{}
